@@ -180,6 +180,8 @@ def sub_main(a):
                 stop = True
             if time.time() - t0 > a.budget:
                 stop = True
+            if len(total["harness_errors"]) >= 6:
+                stop = True         # something is systematically wrong: do not burn the budget on time-outs
             if not stop:
                 submit_more()
             elif pending:
